@@ -295,3 +295,4 @@ def replay(ctx, failure):
     c2 = type(ctx)(ctx.prop, ctx.tier, ctx.seed, ctx.driver.driver_rel)
     run(c2, only=[case["scenario"]])
     return any(f["sig"] == failure["sig"] for f in c2.failures)
+GEN_MODULES = ["c01"]
